@@ -83,3 +83,35 @@ Theorem C01_identifiable_layered : forall EL R nuS nuL t, 0 < EL -> 0 < R -> 0 <
              = m_power_layer_clifford_2009 ES EL R nuS nuL t cp bl x) ->
   ES' = ES /\ cp' = cp /\ bl' = bl.
 Proof. exact layered_identifiable. Qed.
+
+(* ---- the library's own initial guess (Model/Guess.v: guess_initial_parameters) --------
+   names, order, vary flags and bounds are the model's defaults; a parameter that is neither
+   the contact point nor named by a non-NaN ancillary keeps its default value; the contact
+   point is the tip position at the estimated index, clipped to the parameter's bounds; NaN
+   ancillaries are ignored.  (The contact-point index and the ancillary values are inputs:
+   C08 / C18.) *)
+From Coq Require Import String.
+From Coq Require List.
+Require NV.Model.Guess NV.Proofs.GuessP.
+
+Theorem C01_guess_frame : forall defaults cp anc,
+  List.Forall2 GuessP.frame (Guess.guess defaults cp anc) defaults.
+Proof. exact GuessP.guess_frame. Qed.
+
+Theorem C01_guess_untouched : forall defaults cp anc k, k <> "contact_point"%string ->
+  (forall v, ~ List.In (k, Some v) anc) ->
+  Guess.value_of (Guess.guess defaults cp anc) k = Guess.value_of defaults k.
+Proof. exact GuessP.guess_untouched. Qed.
+
+Theorem C01_guess_contact_point : forall defaults c anc,
+  (forall v, ~ List.In ("contact_point"%string, Some v) anc) ->
+  Guess.value_of (Guess.guess defaults (Some c) anc) "contact_point"%string =
+  match List.find (fun p => String.eqb (Guess.p_name p) "contact_point"%string) defaults with
+  | Some p => Some (Guess.clip (Guess.p_min p) (Guess.p_max p) c)
+  | None => None
+  end.
+Proof. exact GuessP.guess_contact_point. Qed.
+
+Theorem C01_guess_nan_ignored : forall defaults cp anc1 anc2 k,
+  Guess.guess defaults cp (anc1 ++ (k, None) :: anc2)%list = Guess.guess defaults cp (anc1 ++ anc2)%list.
+Proof. exact GuessP.guess_nan_ignored. Qed.
